@@ -26,6 +26,7 @@ GUARDS = [("rid", "rid.trusts_header_when_disabled", "TrustAndTruncate"),
           ("trace", "client.forwards_parent_not_span", "ParentIsCallerSpan"),
           ("trace", "client.forwards_parent_not_span", "ForwardMatchesContext"),
           ("trace", "client.drops_trace", "OneTracePerChain"),
+          ("trace", "client.appends_to_forwarded_metadata", "ParentIsCallerSpan"),
           ("trace", "trace.span_reused", "FreshSpan"),
           ("trace", "trace.stale_parent_when_untraced", "UntracedIsClean"),
           ("capture", "capture.status_follows_last_writeheader", "CaptureMatchesWritten"),
@@ -43,7 +44,7 @@ def slices(quick):
     if quick:
         return [("rid", {"Mode": '"rid"', "MaxHops": 4, "MaxReq": 1, "LimitMax": 3}),
                 ("trace-4x1", {"Mode": '"trace"', "MaxHops": 4, "MaxReq": 1}),
-                ("trace-2x2", {"Mode": '"trace"', "MaxHops": 2, "MaxReq": 2}),
+                ("trace-2x2", {"Mode": '"trace"', "MaxHops": 2, "MaxReq": 2, "MaxDiscards": 0}),
                 ("capture", {"Mode": '"capture"', "MaxHops": 2, "MaxScript": 3})]
     return [("rid", {"Mode": '"rid"', "MaxHops": 4, "MaxReq": 1, "LimitMax": 5}),
             ("trace-4x2", {"Mode": '"trace"', "MaxHops": 4, "MaxReq": 2}),
@@ -140,6 +141,8 @@ def classify(case, pred, obs):
             return "C19/%s/received/%s" % (c["transport"], "requestid" if ("rid" in parts or "ridc" in parts) else parts[-1])
         if fld in ("rid", "md"):
             return "C19/%s/requestid/%s" % (c["transport"], rid_class(case))
+        if fld != "trace":      # span / parent: the sampling options do not matter
+            return "C19/%s/trace/%s%s" % (c["transport"], fld, "/forwarded_metadata" if c.get("fwdmd") else "")
         return "C19/%s/trace/%s/sampling=%s%s" % (c["transport"], fld, c["smode"],
                                                   c["pct"] if c["smode"] == "percent" else "")
     return "C19/%s/other" % c["transport"]
@@ -198,13 +201,16 @@ def run_vectors(ctx, gen, quick, nt):
                 if i % 1499 == 0:
                     ctx.sample({"case": case, "observed": o})
                 continue
-            ckey = classify(case, preds[0], o)
+            def score(p):       # the allowed behaviour closest to the observation
+                return sum(1 for sec in ("hops", "fwds", "caps") for x, y in zip(p[sec], o.get(sec, [])) if x == y)
+            near = max(preds, key=score)
+            ckey = classify(case, near, o)
             reported[ckey] = reported.get(ckey, 0) + 1
             if reported[ckey] > 3:          # same site and input class: three witnesses are enough
                 continue
             d = explain(ctx, gen, label, consts, k, o)
-            desc = "model allows %d behaviour(s), first %s; real code differs at %s" % (
-                len(preds), json.dumps(preds[0], sort_keys=True)[:200], core.deep_diff(preds[0], o))
+            desc = "model allows %d behaviour(s), closest %s; real code differs at %s" % (
+                len(preds), json.dumps(near, sort_keys=True)[:200], core.deep_diff(near, o))
             ctx.violation(d or ckey, desc, {"slice": label, "vector": case, "allowed": preds, "observed": o})
 
 
@@ -354,18 +360,21 @@ def run(ctx):
         small = {"MaxHops": 2, "MaxReq": 2 if d.startswith("sampler.adaptive") else 1, "LimitMax": 2, "MaxScript": 2}
         txt = re.sub(r"(?m)^INVARIANTS.*$", "INVARIANTS " + inv, base)
         r = ctx.mc_expect_violation(MC, cfg_text=txt, consts=dict(small, Mode='"%s"' % mode, Deviations=dev(d)),
-                                    label="guard-%s-%s" % (d, inv), timeout=600, workers=3)
+                                    label="guard-%s-%s" % (d, inv), timeout=600, workers=2)
         if r.violated != inv:
             raise core.Infra("guard %s: expected %s to fail, TLC reported %s" % (d, inv, r.violated))
+    def canceler(_):
+        # growth module (beyond the listed property): StreamCanceler's lost-cancellation window
+        ctx.mc("mc/MC_Canceler", label="MC Canceler (design: flag re-read after Store)", timeout=600, workers=2)
+        ctx.mc_expect_violation("mc/MC_Canceler", consts={"Deviations": dev("canceler.no_recheck_after_store")},
+                                label="MC Canceler as coded", timeout=600, workers=2)
     try:
-        with ThreadPoolExecutor(max_workers=4) as ex:
-            list(ex.map(guard, GUARDS))
+        with ThreadPoolExecutor(max_workers=8) as ex:
+            fs = [ex.submit(guard, g) for g in GUARDS] + [ex.submit(canceler, None)]
+            for f in fs:
+                f.result()
     finally:
         ctx.subdir = subdir
-    # growth module (beyond the listed property): StreamCanceler's lost-cancellation window
-    ctx.mc("mc/MC_Canceler", label="MC Canceler (design: flag re-read after Store)", timeout=600)
-    ctx.mc_expect_violation("mc/MC_Canceler", consts={"Deviations": dev("canceler.no_recheck_after_store")},
-                            label="MC Canceler as coded", timeout=600)
     ctx.notes.append("beyond C19: grpc/middleware/canceler.go behaves like Canceler.tla with deviation canceler.no_recheck_after_store "
                      "(a stream that passed the canceling check before the stop signal and stores its cancel func after Range is never "
                      "cancelled); modelled only, reported in evidence, no verdict")
